@@ -318,21 +318,10 @@ def analyse(source, filename, spec_owners=None, pinned=False):
                     skip = t is not None and t.lookup(n.id).is_local()
                 except KeyError:
                     skip = False
-        # unfixed findings (known_findings.json C05-comp-in-class / C05-comp-target-global): supp has no scope of its own
-        # for comprehensions, so (A) a read inside a comprehension written directly in a class body sees the class's
-        # names, (B) a comprehension target named like a `global` declaration of the enclosing function is global
-        known = ''
-        k = len(path)
-        while k > 0 and isinstance(w.scopes[path[k - 1]], COMPS):
-            k -= 1
-        if k < len(path):
-            outer = w.scopes[path[k - 1]] if k > 0 else None
-            if isinstance(outer, ast.ClassDef):
-                known = 'A'
-            elif outer is not None and n.id in w.globals_of.get(path[k - 1], ()) and any(n.id in w.comp_targets.get(c, ()) for c in path[k:]):
-                known = 'B'
-        if leaked and not known:
-            known = 'C'
+        # open finding C05-comp-target-leaks (known_findings.json): after a comprehension its targets stay visible as
+        # possibly-defined names of the enclosing scope (pinned by tests/test_scope.py::test_lambda_in_gen_expression);
+        # reads that pick up such a leaked target are excluded, the pinned input keeps the finding observable
+        known = 'C' if leaked else ''
         spec = -1
         if spec_owners is not None and n.id == 'x':
             depth = len(path)
